@@ -19,26 +19,32 @@ Print Assumptions C09_wrapper_transparent.
 Theorem C09_doc_wrapper : forall id t, id <> 0 ->
   fungible (TWrap id t) t = true /\ fungible t (TWrap id t) = true.
 Proof. exact fungible_wrapper. Qed.
+Print Assumptions C09_doc_wrapper.
 
 Theorem C09_doc_vector_array : forall t ca n,
   fungible (TSeq CVec t) (TSeq (CArr ca n) t) = true /\ fungible (TSeq (CArr ca n) t) (TSeq CVec t) = true.
 Proof. exact fungible_vector_array. Qed.
+Print Assumptions C09_doc_vector_array.
 
 Theorem C09_doc_array_carray : forall t n, fungible (TSeq (CArr false n) t) (TSeq (CArr true n) t) = true.
 Proof. exact fungible_array_carray. Qed.
+Print Assumptions C09_doc_array_carray.
 
 Theorem C09_doc_pair_tuple : forall a b,
   fungible (TTuple KPair [a; b]) (TTuple KTuple [a; b]) = true /\
   fungible (TTuple KTuple [a; b]) (TTuple KPair [a; b]) = true.
 Proof. exact fungible_pair_tuple. Qed.
+Print Assumptions C09_doc_pair_tuple.
 
 Theorem C09_doc_map_unordered : forall k v u u', fungible (TMap u k v) (TMap u' k v) = true.
 Proof. exact fungible_map_unordered. Qed.
+Print Assumptions C09_doc_map_unordered.
 
 Theorem C09_doc_lbuf_vector : forall t ca cap sk unb,
   fungible (TSeq (CLBuf ca cap sk unb) t) (TSeq CVec t) = true /\
   fungible (TSeq CVec t) (TSeq (CLBuf ca cap sk unb) t) = true.
 Proof. exact fungible_lbuf_vector. Qed.
+Print Assumptions C09_doc_lbuf_vector.
 
 Theorem C09_doc_vector_tuple : forall t ts, is_integral t = false ->
   Forall (fun x => fungible t x = true) ts -> fungible (TSeq CVec t) (TTuple KTuple ts) = true.
